@@ -7,11 +7,11 @@ package jlib
 import (
 	"fmt"
 	"math"
+	"math/big"
 	"math/rand"
 	"reflect"
 	"regexp"
 	"strconv"
-	"strings"
 
 	"github.com/blues/jsonata-go/jtypes"
 )
@@ -62,29 +62,58 @@ func Round(x float64, prec jtypes.OptionalInt) float64 {
 	if prec.Int >= 0 && x == math.Trunc(x) {
 		return x
 	}
-	intermed := multByPow10(x, prec.Int)
-	if math.IsInf(intermed, 0) {
+	if math.IsNaN(x) || math.IsInf(x, 0) {
 		return x
 	}
-	if isHalfway(intermed) {
-		correction, _ := math.Modf(math.Mod(intermed, 2))
-		intermed += correction
-		if intermed > 0 {
-			x = math.Floor(intermed)
-		} else {
-			x = math.Ceil(intermed)
-		}
-	} else {
-		// Don't round by adding 0.5 and truncating. The sum is
-		// itself rounded, e.g. 0.49999999999999994 + 0.5 is 1.
-		x = math.Round(intermed)
-	}
 
-	if x == 0 {
+	// Doubles have no more than 324 decimal places and no
+	// more than 309 digits before the decimal point.
+	switch {
+	case prec.Int > 400:
+		return x
+	case prec.Int < -400:
 		return 0
 	}
 
-	return multByPow10(x, -prec.Int)
+	// Round the shortest decimal representation of x (i.e.
+	// the number as JSONata prints it) using exact decimal
+	// arithmetic. Scaling by a power of ten in floating point
+	// is not exact, e.g. 104.74999999999999 * 10 is 1047.5.
+	r, ok := new(big.Rat).SetString(strconv.FormatFloat(x, 'g', -1, 64))
+	if !ok {
+		return x
+	}
+
+	scale := new(big.Rat).SetInt(new(big.Int).Exp(big.NewInt(10), big.NewInt(int64(abs(prec.Int))), nil))
+	if prec.Int >= 0 {
+		r.Mul(r, scale)
+	} else {
+		r.Quo(r, scale)
+	}
+
+	// Round half to even. DivMod implements Euclidean
+	// division so the remainder is never negative.
+	q, m := new(big.Int).DivMod(r.Num(), r.Denom(), new(big.Int))
+	switch cmp := m.Lsh(m, 1).Cmp(r.Denom()); {
+	case cmp > 0, cmp == 0 && q.Bit(0) == 1:
+		q.Add(q, big.NewInt(1))
+	}
+
+	r.SetInt(q)
+	if prec.Int >= 0 {
+		r.Quo(r, scale)
+	} else {
+		r.Mul(r, scale)
+	}
+
+	res, _ := r.Float64()
+	if res == 0 {
+		// Make sure zero is returned
+		// without the negative bit set.
+		return 0
+	}
+
+	return res
 }
 
 // Power returns x to the power of y.
@@ -108,37 +137,4 @@ func Sqrt(x float64) (float64, error) {
 // Random returns a random floating point number between 0 and 1.
 func Random() float64 {
 	return rand.Float64()
-}
-
-// multByPow10 multiplies a number by 10 to the power of n.
-// It does this by converting back and forth to strings to
-// avoid floating point rounding errors, e.g.
-//
-//     4.525 * math.Pow10(2) returns 452.50000000000006
-func multByPow10(x float64, n int) float64 {
-	if n == 0 || math.IsNaN(x) || math.IsInf(x, 0) {
-		return x
-	}
-
-	s := fmt.Sprintf("%g", x)
-
-	chunks := strings.Split(s, "e")
-	switch len(chunks) {
-	case 1:
-		s = chunks[0] + "e" + strconv.Itoa(n)
-	case 2:
-		e, _ := strconv.Atoi(chunks[1])
-		s = chunks[0] + "e" + strconv.Itoa(e+n)
-	default:
-		return x
-	}
-
-	x, _ = strconv.ParseFloat(s, 64)
-	return x
-}
-
-func isHalfway(x float64) bool {
-	_, frac := math.Modf(x)
-	frac = math.Abs(frac)
-	return frac == 0.5 || (math.Nextafter(frac, math.Inf(-1)) < 0.5 && math.Nextafter(frac, math.Inf(1)) > 0.5)
 }
